@@ -41,6 +41,7 @@ class BodyAn:
         self._collect_defs()
         self._rd_cache = {}
         self._expr_cache = {}
+        self._env_memo = {}
 
     # ---------------------------------------------------------------- CFG
     def _build_cfg(self):
@@ -333,6 +334,20 @@ class BodyAn:
         ck = (l, bi, idx if idx != "term" else -1)
         if env is None and ck in self._expr_cache:
             return self._expr_cache[ck]
+        memo = None
+        if env is not None:
+            # per-environment memo (an environment is a small dict of selector values; without the memo a DAG-shaped
+            # value is re-expanded once per path through it)
+            ent = self._env_memo.get(id(env))
+            snap = tuple(env.items())
+            if ent is None or ent[0] is not env or ent[1] != snap:
+                if len(self._env_memo) > 256:
+                    self._env_memo.clear()
+                ent = (env, snap, {})
+                self._env_memo[id(env)] = ent
+            memo = ent[2]
+            if ck in memo:
+                return memo[ck]
         if ck in seen:
             return ("opaque", "cycle:_%d" % l)
         seen2 = seen | {ck}
@@ -342,6 +357,8 @@ class BodyAn:
             e = self.expr_call(payload, (bi, "term"), depth + 1, env, seen2)
         if env is None:
             self._expr_cache[ck] = e
+        elif not any(x[0] == "opaque" and str(x[1]).startswith(("cycle:", "loop:")) for x in walk(e)):
+            memo[ck] = e
         return e
 
     def expr_call(self, t, at, depth=0, env=None, seen=frozenset()):
